@@ -11,7 +11,20 @@ import (
 // `size + n` where every possible n is the byte count returned by a call made on the wrapped writer.  A count
 // returned by a call that was itself handed the recorder (io.Copy into a wrapper of r, r.Write, …) has already been
 // added by that inner call — adding it again doubles {size}.
+// c20R6: every byte is counted once — decided from the recorder table (E10); the dataflow formulation (c20R6Patterns)
+// is kept for reference and no longer registered.
 func c20R6(h H) {
+	r := h.r
+	r.Rule("R6", "size accounting (E10 recorder table): over every evaluated sequence of header, body writes and ReadFrom, the recorder's size equals the number of bytes the wrapped writer reported taking — no byte counted twice, none uncounted", 1)
+	t := recorderTable(h)
+	var pos token.Pos
+	if f := h.p.Func(hs, "(*ResponseRecorder).Write"); f != nil {
+		pos = f.Pos()
+	}
+	r.Check(t.size == "" && t.other == "", "R6", "httpserver.(*ResponseRecorder)/size-is-bytes-taken", pos, "each body byte is counted exactly once", sprintf("%d scenarios evaluated", t.n), t.size, t.other)
+}
+
+func c20R6Patterns(h H) {
 	r := h.r
 	r.Rule("R6", "size accounting sites: every store to ResponseRecorder.size in the module adds to the previous size a count that, on every data path, is the result of a Write/ReadFrom call on the wrapped ResponseWriter (never the result of a call that was given the recorder itself, whose bytes were already counted)", 1)
 	n := 0
